@@ -63,7 +63,7 @@ func (vfs *OrefaFS) Chdir(dir string) error {
 		return &fs.PathError{Op: op, Path: dir, Err: vfs.err.NoSuchFile}
 	}
 
-	if !nd.mode.IsDir() {
+	if !nd.isDir() {
 		err := vfs.err.NotADirectory
 		if vfs.OSType() == avfs.OsWindows {
 			err = avfs.ErrWinDirNameInvalid
@@ -378,7 +378,7 @@ func (vfs *OrefaFS) Link(oldname, newname string) error {
 		return &os.LinkError{Op: op, Old: oldname, New: newname, Err: vfs.err.NoSuchFile}
 	}
 
-	if !nParent.mode.IsDir() {
+	if !nParent.isDir() {
 		return &os.LinkError{Op: op, Old: oldname, New: newname, Err: vfs.err.NotADirectory}
 	}
 
@@ -391,7 +391,7 @@ func (vfs *OrefaFS) Link(oldname, newname string) error {
 		return &os.LinkError{Op: op, Old: oldname, New: newname, Err: err}
 	}
 
-	if oChild.mode.IsDir() {
+	if oChild.isDir() {
 		err := error(avfs.ErrOpNotPermitted)
 		if vfs.OSType() == avfs.OsWindows {
 			err = avfs.ErrWinAccessDenied
@@ -490,14 +490,14 @@ func (vfs *OrefaFS) Mkdir(name string, perm fs.FileMode) error {
 			parent, parentOk = vfs.nodes[dirName]
 		}
 
-		if parent.mode.IsDir() {
+		if parent.isDir() {
 			return &fs.PathError{Op: op, Path: name, Err: vfs.err.NoSuchDir}
 		}
 
 		return &fs.PathError{Op: op, Path: name, Err: vfs.err.NotADirectory}
 	}
 
-	if !parent.mode.IsDir() {
+	if !parent.isDir() {
 		return &fs.PathError{Op: op, Path: name, Err: vfs.err.NotADirectory}
 	}
 
@@ -524,7 +524,7 @@ func (vfs *OrefaFS) MkdirAll(path string, perm fs.FileMode) error {
 
 	child, childOk := vfs.nodes[absPath]
 	if childOk {
-		if child.mode.IsDir() {
+		if child.isDir() {
 			return nil
 		}
 
@@ -542,7 +542,7 @@ func (vfs *OrefaFS) MkdirAll(path string, perm fs.FileMode) error {
 		nd, ok := vfs.nodes[dirName]
 		if ok {
 			parent = nd
-			if !parent.mode.IsDir() {
+			if !parent.isDir() {
 				return &fs.PathError{Op: op, Path: dirName, Err: vfs.err.NotADirectory}
 			}
 
@@ -618,7 +618,7 @@ func (vfs *OrefaFS) OpenFile(name string, flag int, perm fs.FileMode) (avfs.File
 			return (*OrefaFile)(nil), &fs.PathError{Op: op, Path: name, Err: vfs.err.NoSuchDir}
 		}
 
-		if !parent.mode.IsDir() {
+		if !parent.isDir() {
 			return (*OrefaFile)(nil), &fs.PathError{Op: op, Path: name, Err: vfs.err.NotADirectory}
 		}
 
@@ -628,7 +628,7 @@ func (vfs *OrefaFS) OpenFile(name string, flag int, perm fs.FileMode) (avfs.File
 
 		child = vfs.createFile(parent, absPath, fileName, perm)
 	} else {
-		if child.mode.IsDir() {
+		if child.isDir() {
 			if om&avfs.OpenCreateExcl != 0 {
 				return (*OrefaFile)(nil), &fs.PathError{Op: op, Path: name, Err: vfs.err.FileExists}
 			}
@@ -736,7 +736,7 @@ func (vfs *OrefaFS) Remove(name string) error {
 	child.mu.Lock()
 	defer child.mu.Unlock()
 
-	if child.mode.IsDir() && len(child.children) != 0 {
+	if child.isDir() && len(child.children) != 0 {
 		return &fs.PathError{Op: op, Path: name, Err: vfs.err.DirNotEmpty}
 	}
 
@@ -850,7 +850,7 @@ func (vfs *OrefaFS) Rename(oldname, newname string) error {
 			return &os.LinkError{Op: op, Old: oldname, New: newname, Err: vfs.err.NoSuchFile}
 		}
 
-		if oChild.mode.IsDir() && vfs.Clean(oldname) == vfs.Clean(newname) && vfs.OSType() != avfs.OsWindows {
+		if oChild.isDir() && vfs.Clean(oldname) == vfs.Clean(newname) && vfs.OSType() != avfs.OsWindows {
 			// os.Rename refuses an existing directory as new name, unless it is the same directory under another name.
 			return &os.LinkError{Op: op, Old: oldname, New: newname, Err: vfs.err.FileExists}
 		}
@@ -870,11 +870,11 @@ func (vfs *OrefaFS) Rename(oldname, newname string) error {
 		return &os.LinkError{Op: op, Old: oldname, New: newname, Err: vfs.err.NoSuchFile}
 	}
 
-	if !nParent.mode.IsDir() {
+	if !nParent.isDir() {
 		return &os.LinkError{Op: op, Old: oldname, New: newname, Err: vfs.err.NotADirectory}
 	}
 
-	if nChildOk && nChild.mode.IsDir() {
+	if nChildOk && nChild.isDir() {
 		err := vfs.err.FileExists
 		if vfs.OSType() == avfs.OsWindows {
 			err = avfs.ErrWinAccessDenied
@@ -883,12 +883,12 @@ func (vfs *OrefaFS) Rename(oldname, newname string) error {
 		return &os.LinkError{Op: op, Old: oldname, New: newname, Err: err}
 	}
 
-	if oChild.mode.IsDir() && strings.HasPrefix(nAbsPath, oAbsPath+string(vfs.PathSeparator())) {
+	if oChild.isDir() && strings.HasPrefix(nAbsPath, oAbsPath+string(vfs.PathSeparator())) {
 		// A directory can't be moved into itself.
 		return &os.LinkError{Op: op, Old: oldname, New: newname, Err: vfs.err.InvalidArgument}
 	}
 
-	if oChild.mode.IsDir() && nChildOk {
+	if oChild.isDir() && nChildOk {
 		err := vfs.err.NotADirectory
 		if vfs.OSType() == avfs.OsWindows {
 			err = avfs.ErrWinAccessDenied
@@ -933,7 +933,7 @@ func (vfs *OrefaFS) Rename(oldname, newname string) error {
 	vfs.nodes[nAbsPath] = oChild
 	delete(vfs.nodes, oAbsPath)
 
-	if oChild.mode.IsDir() {
+	if oChild.isDir() {
 		oRoot := oAbsPath + string(vfs.PathSeparator())
 
 		for absPath, node := range vfs.nodes {
@@ -1015,7 +1015,7 @@ func (vfs *OrefaFS) stat(path, op string) (fs.FileInfo, error) {
 			return nil, &fs.PathError{Op: op, Path: path, Err: vfs.err.NoSuchDir}
 		}
 
-		if parent.mode.IsDir() {
+		if parent.isDir() {
 			return nil, &fs.PathError{Op: op, Path: path, Err: vfs.err.NoSuchFile}
 		}
 
@@ -1099,7 +1099,7 @@ func (vfs *OrefaFS) Truncate(name string, size int64) error {
 		return &fs.PathError{Op: op, Path: name, Err: vfs.err.NoSuchFile}
 	}
 
-	if child.mode.IsDir() {
+	if child.isDir() {
 		if vfs.OSType() == avfs.OsWindows {
 			op = "open"
 		}
